@@ -130,7 +130,7 @@ def runtime_tokens(tier, seed):
         a = rnd.randrange(0, 10 ** rnd.randrange(1, 25))
         b = ''.join(rnd.choice('0123456789') for _ in range(rnd.randrange(1, 25)))
         add('p', '%d.%s' % (a, b))
-    for t in ('.5', '5.', '0.5', '1.50', "1'0.2'5", '10.0', '00.5', '-1.5', '+.5', '-10.25'):
+    for t in ('.5', '5.', '0.5', '1.50', "1'0.2'5", '10.0', '00.5', '-1.5', '+.5', '-10.25', '-5.', '+5.', '-0.', '-12.'):
         add('p', t)
     # width estimate for every decimal length (scan only)
     nmax = 1200 if tier == 'quick' else 3000
